@@ -2487,7 +2487,9 @@ namespace chaiscript {
             while (Operator_Helper(t_precedence, oper)) {
               while (Eol()) {
               }
-              if (!Operator(t_precedence + 1)) {
+              // the middle operand of the conditional operator is itself a conditional expression: a ? b ? c : d : e
+              const auto operand_precedence = (m_operators[t_precedence] == Operator_Precedence::Ternary_Cond) ? t_precedence : t_precedence + 1;
+              if (!Operator(operand_precedence)) {
                 throw exception::eval_error("Incomplete '" + oper + "' expression",
                                             File_Position(m_position.line, m_position.col),
                                             *m_filename);
